@@ -102,7 +102,7 @@ impl Ctx {
         let e = st.entry(sub.to_string()).or_default();
         e.evaluations += evals; e.nontrivial += nt; e.excluded_known += excluded;
         for (k, v) in classes { *e.classes.entry(k).or_default() += v; }
-        for s in samples { if e.samples.len() < 4 { e.samples.push(s); } }
+        for s in samples { if e.samples.len() < 4 { e.samples.push(clip(s)); } }
         drop(st);
         let mut d = self.distinct.lock().unwrap();
         let salt = fnv64(sub.as_bytes());
@@ -294,6 +294,9 @@ impl Ctx {
         let mut samples = Vec::new(); let mut subs = serde_json::Map::new(); let mut classes_all = serde_json::Map::new();
         let mut exhaustive_all: Option<bool> = None; let mut excluded = 0u64;
         for (name, s) in st.iter() {
+            // evidence stays readable: at most 120 classes per sub-check are listed (the most frequent), the rest are summed
+            let capped: BTreeMap<String, u64> = if s.classes.len() <= 120 { s.classes.clone() } else { let mut v: Vec<(&String, &u64)> = s.classes.iter().collect(); v.sort_by(|a, b| b.1.cmp(a.1).then(a.0.cmp(b.0))); let mut m: BTreeMap<String, u64> = v[..120].iter().map(|(k, c)| ((*k).clone(), **c)).collect(); m.insert(format!("(other: {} classes)", v.len() - 120), v[120..].iter().map(|(_, c)| **c).sum()); m };
+            let s = &SubStat { wall_s: s.wall_s, evaluations: s.evaluations, nontrivial: s.nontrivial, classes: capped, samples: s.samples.clone(), exhaustive: s.exhaustive, space: s.space.clone(), replayed: s.replayed, kind: s.kind, excluded_known: s.excluded_known };
             for x in &s.samples { let mut x = x.clone(); x["sub"] = json!(name); samples.push(x); }
             let mut o = json!({"kind": s.kind, "wall_s": (s.wall_s * 100.0).round() / 100.0, "evaluations": s.evaluations, "nontrivial": s.nontrivial, "replayed": s.replayed, "classes": s.classes});
             if let Some(e) = s.exhaustive { o["exhaustive"] = json!(e); o["space"] = json!(s.space); if s.kind == "sse" { exhaustive_all = Some(exhaustive_all.unwrap_or(true) && e); } }
@@ -423,3 +426,14 @@ fn load_known(root: &std::path::Path, id: &str) -> Vec<Known> {
 
 /// Monotone index mapping for shrink-friendly choices: u16 fraction -> 0..len.
 pub fn pick(frac: u16, len: usize) -> usize { if len == 0 { 0 } else { ((frac as usize) * len) >> 16 } }
+
+/// Samples in the evidence are for reading: long strings and long arrays inside a sampled case are cut (the case itself is
+/// a pure function of the seed and can be regenerated; failing cases are kept whole in their replay files).
+pub fn clip(v: Value) -> Value {
+    match v {
+        Value::String(t) => if t.chars().count() > 300 { let head: String = t.chars().take(200).collect(); Value::String(format!("{}... ({} characters in all)", head, t.chars().count())) } else { Value::String(t) },
+        Value::Array(a) => { let n = a.len(); let mut out: Vec<Value> = a.into_iter().take(if n > 48 { 24 } else { n }).map(clip).collect(); if n > 48 { out.push(Value::String(format!("... ({} elements in all)", n))); } Value::Array(out) }
+        Value::Object(m) => Value::Object(m.into_iter().map(|(k, x)| (k, clip(x))).collect()),
+        other => other,
+    }
+}
